@@ -944,12 +944,12 @@ Proof.
   - split; [eapply pstep_gstack; eauto|eapply pstep_tl_g; eauto using preachable_g_preachable].
 Qed.
 
-(* no lost wake-up through path_lock: under the guard, a thread of process p that sits in wait() of the path's
-   ShareableThreadLock while no other thread holds that lock has been notified *)
+(* no lost wake-up through path_lock: a thread of process p that sits in wait() of the path's ShareableThreadLock
+   while no other thread holds that lock has been notified (every reachable state) *)
 Lemma path_no_lost_wakeup_lemma ps p t r n rest :
-  preachable_g pof ps -> stk (tl (getp ps p)) t = ExWait r n :: rest -> others_hold (tl (getp ps p)) t = false -> n = true.
+  preachable pof ps -> stk (tl (getp ps p)) t = ExWait r n :: rest -> others_hold (tl (getp ps p)) t = false -> n = true.
 Proof.
-  intros R E O. destruct (preachable_g_tl _ R) as [_ Rt]. eapply no_lost_wakeup_lemma; eauto.
+  intros R E O. eapply no_lost_wakeup_lemma; [exact (preachable_tl pof ps R p)|exact E|exact O].
 Qed.
 
 End PathG.
